@@ -36,6 +36,8 @@ type Printer struct {
 	inSpace   bool
 	// lastTopEnd: end of the last top-level value printed by Top (-1: none / something else followed)
 	lastTopEnd int
+	// bareIVM: the symbol value being printed may be spelled $ion_1_0 without quotes
+	bareIVM bool
 	// SIDOneIn: a symbol whose text the current table defines is spelled $n with
 	// probability 1/SIDOneIn (default 5).
 	SIDOneIn int
@@ -274,6 +276,13 @@ func (p *Printer) space(required bool) {
 		}
 	case k == 8:
 		p.Choices["comment.block"]++
+		if n := len(p.b); n > 0 && strings.IndexByte(")]}\",", p.b[n-1]) >= 0 && p.C.Intn(2) == 0 {
+			// directly behind a closing bracket, a double quote or a comma: no
+			// whitespace in front of the comment
+			p.Choices["comment.abutting"]++
+			p.w([]string{"/**/", "/* c */", "//c\n", "/**///\n"}[p.C.Intn(4)])
+			break
+		}
 		p.w([]string{" /**/", "\t/* c */", "\n/* * / ** // \n ' \" }} */", " /*\n*/ "}[p.C.Intn(4)])
 	case k == 9:
 		p.Choices["comment.line"]++
@@ -396,7 +405,11 @@ func (p *Printer) value(v model.Value, c ctx) {
 	case model.Timestamp:
 		p.tsLit(v.TS)
 	case model.Symbol:
+		// a version-marker-shaped symbol is a marker only when it stands unquoted,
+		// unannotated and at top level: anywhere else it may be spelled bare
+		p.bareIVM = len(v.Ann) > 0 || c != ctxTop
 		p.symbol(v.Sym, c == ctxSexp, false)
+		p.bareIVM = false
 	case model.String:
 		p.str(v.Text)
 	case model.Clob:
@@ -707,7 +720,7 @@ func (p *Printer) symbol(s model.Sym, inSexp bool, isAnnotation bool) {
 		p.w("$" + strconv.Itoa(ids[p.C.Intn(len(ids))]))
 		return
 	}
-	if isIdentifier(s.Text) && !(isIVMShaped(s.Text) && !isAnnotation) {
+	if isIdentifier(s.Text) && !(isIVMShaped(s.Text) && !isAnnotation && !p.bareIVM) {
 		if p.choose("symbol.quoted-identifier", 4) != 3 {
 			p.w(s.Text)
 			return
